@@ -22,6 +22,16 @@ TYPES = {
     "u8": ({"type": "integer", "format": "uint8", "minimum": 0}, [0, 255], None, 9),
     "bool": ({"type": "boolean"}, [True, False], None, True),
     "vec": ({"type": "array", "items": INT}, [[1, 2], []], None, [3]),
+    "set": ({"type": "array", "items": INT, "uniqueItems": True}, [[1, 2], []], None, [3]),
+    "set_str": ({"type": "array", "items": {"type": "string"}, "uniqueItems": True}, [["a"], []], None, None),
+    "array2": ({"type": "array", "items": INT, "minItems": 2, "maxItems": 2}, [[1, 2], [0, 0]], None, [3, 4]),
+    "map_any": ({"type": "object"}, [{"k": [1]}, {}], None, {"d": 1}),
+    "map_keyed": ({"type": "object", "additionalProperties": INT, "propertyNames": {"type": "string", "pattern": "^[a-z]+$"}}, [{"k": 1}, {}], None, None),
+    "number": ({"type": "number"}, [1.5, 0], None, 2.5),
+    "nz32": ({"type": "integer", "format": "uint32", "minimum": 1}, [1, 7], None, 5),
+    "opt_ref": ({"oneOf": [{"$ref": "#/definitions/P"}, {"type": "null"}]}, [{"x": 1}, None], None, None),
+    "inline_struct": ({"type": "object", "properties": {"q": INT}, "required": ["q"]}, [{"q": 1}, {"q": 2}], None, {"q": 9}),
+    "inline_enum": ({"type": "string", "enum": ["x", "y"]}, ["x", "y"], "zz", "y"),
     "map": ({"type": "object", "additionalProperties": INT}, [{"k": 1}, {}], None, {"tier": 2}),
     "ref": ({"$ref": "#/definitions/P"}, [{"x": 1}, {"x": 2}], None, {"x": 5}),
     "nullable": ({"type": ["string", "null"]}, ["n", None], None, "nd"),
